@@ -144,7 +144,8 @@ pub(crate) fn canon(raw: &str) -> String {
         };
     }
     let src = l.source.clone().unwrap_or_default();
-    let cmd = l.cmd.clone();
+    // commands are case-insensitive: a relay may keep the sender's spelling
+    let cmd = l.cmd.to_ascii_uppercase();
     if cmd.starts_with("ERROR") {
         // ":srv ERROR :User killed by <killer>: <comment>" keeps the killer; other ERROR texts are free text
         let t = l.params.join(" ");
